@@ -172,8 +172,8 @@ func init() {
 			"memory store with cap in {0,1,2,3,5} x maxkb in {0,1,2,4,8} and the real file store with a cap; after every operation every " +
 			"mailbox is compared with the eviction model (cap first, then globally oldest until the limit is met); the size enforcer " +
 			"goroutine runs as a simulated task; non-trivial = at least one eviction happened, distinct by final model state",
-		Real: []string{"pkg/storage/mem (store, maxSizeEnforcer goroutine)", "pkg/storage/file"},
-		Stub: []string{"disk (simfs)", "scheduler (simrt)", "sync (simsync)"},
+		Real:        []string{"pkg/storage/mem (store, maxSizeEnforcer goroutine)", "pkg/storage/file"},
+		Stub:        []string{"disk (simfs)", "scheduler (simrt)", "sync (simsync)"},
 		Assumptions: []string{"one client; concurrent clients are C09", "eviction order across mailboxes = arrival order of deliveries"},
 	})
 }
